@@ -10,8 +10,10 @@
    What is abstracted (see notes/C03.md): the user handler is a program over the alphabet below; every error an
    API call raises is caught by the handler and the program goes on (a handler that lets it escape is the
    program cut at that point ending in RaiseException); cancellation reaches the handler only where it is
-   suspended (Sleep, a Recv that has to wait, the final Wait) -- the sending calls never suspend because the
-   transport is writable and the flow-control windows are open. *)
+   suspended: Sleep, a Recv that has to wait, the final Wait, and -- once the program paused the transport
+   (Pause: pause_writing) -- the `await write_ready.wait()` every sending call starts its wire work with.
+   Otherwise the sending calls never suspend (flow-control windows are open).  The environment resumes
+   writing when the handler coroutine has ended. *)
 From Coq Require Import ZArith List Bool.
 From GV Require Import Lib.Str Gen.Facts Gen.FactsC03 Model.Base64 Model.Metadata.
 Import ListNotations.
@@ -194,17 +196,19 @@ Record sstate := mkS {
   hst : h2s;
   recvd : nat;            (* messages the handler has consumed *)
   sleeps : nat;           (* Sleep ops executed *)
-  fired : bool            (* the environment's event has been delivered (or was void) *)
+  fired : bool;           (* the environment's event has been delivered (or was void) *)
+  paused : bool           (* pause_writing was called: write_ready is clear *)
 }.
 
-Definition set_init (s : sstate) (b : bool) := mkS b (msg_done s) (trail_done s) (cancel_done s) (hst s) (recvd s) (sleeps s) (fired s).
-Definition set_msg (s : sstate) (b : bool) := mkS (init_done s) b (trail_done s) (cancel_done s) (hst s) (recvd s) (sleeps s) (fired s).
-Definition set_trail (s : sstate) (b : bool) := mkS (init_done s) (msg_done s) b (cancel_done s) (hst s) (recvd s) (sleeps s) (fired s).
-Definition set_cancel (s : sstate) (b : bool) := mkS (init_done s) (msg_done s) (trail_done s) b (hst s) (recvd s) (sleeps s) (fired s).
-Definition set_hst (s : sstate) (h : h2s) := mkS (init_done s) (msg_done s) (trail_done s) (cancel_done s) h (recvd s) (sleeps s) (fired s).
-Definition set_recvd (s : sstate) (n : nat) := mkS (init_done s) (msg_done s) (trail_done s) (cancel_done s) (hst s) n (sleeps s) (fired s).
-Definition set_sleeps (s : sstate) (n : nat) := mkS (init_done s) (msg_done s) (trail_done s) (cancel_done s) (hst s) (recvd s) n (fired s).
-Definition set_fired (s : sstate) (b : bool) := mkS (init_done s) (msg_done s) (trail_done s) (cancel_done s) (hst s) (recvd s) (sleeps s) b.
+Definition set_init (s : sstate) (b : bool) := mkS b (msg_done s) (trail_done s) (cancel_done s) (hst s) (recvd s) (sleeps s) (fired s) (paused s).
+Definition set_msg (s : sstate) (b : bool) := mkS (init_done s) b (trail_done s) (cancel_done s) (hst s) (recvd s) (sleeps s) (fired s) (paused s).
+Definition set_trail (s : sstate) (b : bool) := mkS (init_done s) (msg_done s) b (cancel_done s) (hst s) (recvd s) (sleeps s) (fired s) (paused s).
+Definition set_cancel (s : sstate) (b : bool) := mkS (init_done s) (msg_done s) (trail_done s) b (hst s) (recvd s) (sleeps s) (fired s) (paused s).
+Definition set_hst (s : sstate) (h : h2s) := mkS (init_done s) (msg_done s) (trail_done s) (cancel_done s) h (recvd s) (sleeps s) (fired s) (paused s).
+Definition set_recvd (s : sstate) (n : nat) := mkS (init_done s) (msg_done s) (trail_done s) (cancel_done s) (hst s) n (sleeps s) (fired s) (paused s).
+Definition set_sleeps (s : sstate) (n : nat) := mkS (init_done s) (msg_done s) (trail_done s) (cancel_done s) (hst s) (recvd s) n (fired s) (paused s).
+Definition set_fired (s : sstate) (b : bool) := mkS (init_done s) (msg_done s) (trail_done s) (cancel_done s) (hst s) (recvd s) (sleeps s) b (paused s).
+Definition set_paused (s : sstate) (b : bool) := mkS (init_done s) (msg_done s) (trail_done s) (cancel_done s) (hst s) (recvd s) (sleeps s) (fired s) b.
 
 Inductive opres :=
 | ROk
@@ -212,6 +216,7 @@ Inductive opres :=
 | RH2Err          (* h2.exceptions.ProtocolError / StreamClosedError out of send_headers / send_data / reset *)
 | RMsg | REof     (* recv_message returned a message / None *)
 | RAssert         (* recv_message: AssertionError('Received less data than expected') *)
+| RError          (* the call failed part-way: encode_metadata / the codec / a listener raised *)
 | RCancelled.     (* CancelledError delivered at this await *)
 
 (* the response HEADERS: (':status','200'), ('content-type', GRPC_CONTENT_TYPE + '+' + subtype) *)
@@ -256,6 +261,47 @@ Definition cancel (s : sstate) : sstate * list frame * opres :=
        | (false, h') => (set_hst s h', [], RH2Err)
        end.
 
+(* The calls as the handler makes them.  `fails` = the call is given something that makes it raise part-way
+   (invalid user metadata: encode_metadata's ValueError; a message the codec refuses; a listener that raises);
+   the failure point is after the precondition checks (and, for send_message, after the implicit
+   send_initial_metadata) and before the wire work.  The wire work starts with `await write_ready.wait()`:
+   PWait when the transport is paused. *)
+Inductive phase := PDone (s : sstate) (out : list frame) (r : opres) | PWait.
+
+Definition do_send_initial (s : sstate) (fails : bool) : phase :=
+  if init_done s then PDone s [] RRefused
+  else if fails then PDone s [] RError
+  else if paused s then PWait
+  else let '(s1, out, r) := send_initial s in PDone s1 out r.
+
+Definition do_send_message (c : card) (s : sstate) (fails : bool) : phase :=
+  if paused s then
+    if negb (init_done s) then PWait                 (* the implicit send_initial_metadata waits *)
+    else if negb (server_streaming c) && msg_done s then PDone s [] RRefused
+    else if fails then PDone s [] RError
+    else PWait
+  else if fails then
+    let '(s1, out1, r1) := if init_done s then (s, [], ROk) else send_initial s in
+    match r1 with
+    | ROk => if negb (server_streaming c) && msg_done s1 then PDone s1 out1 RRefused else PDone s1 out1 RError
+    | r => PDone s1 out1 r
+    end
+  else let '(s1, out, r) := send_message c s in PDone s1 out r.
+
+Definition trailing_refused (c : card) (s : sstate) (st : Z) : bool :=
+  trail_done s || (negb (server_streaming c) && negb (msg_done s) && (st =? status_ok)).
+
+Definition do_send_trailing (c : card) (s : sstate) (st : Z) (m : option (list Z)) (fails : bool) : phase :=
+  if trailing_refused c s st then PDone s [] RRefused
+  else if fails then PDone s [] RError
+  else if paused s then PWait
+  else let '(s1, out, r) := send_trailing c s st m in PDone s1 out r.
+
+Definition do_cancel (s : sstate) : phase :=
+  if cancel_done s then PDone s [] RRefused
+  else if paused s then PWait
+  else let '(s1, out, r) := cancel s in PDone s1 out r.
+
 (* what Stream.__aexit__ is given *)
 Inductive exn :=
 | EGRPC (st : Z) (m : option (list Z))     (* GRPCError(status, message) *)
@@ -292,11 +338,21 @@ Definition abort (h : h2s) (h2status : Z) (gs : option Z) (m : option (list Z)) 
 (** * Handler programs and the environment *)
 
 Inductive op :=
-| Recv | SendInitial | SendMessage
-| SendTrailing (st : Z) (m : option (list Z))
-| Cancel | Sleep.
+| Recv
+| SendInitial (fails : bool)
+| SendMessage (fails : bool)
+| SendTrailing (st : Z) (m : option (list Z)) (fails : bool)
+| Cancel | Sleep
+| Pause.                  (* the transport's buffer fills up here: pause_writing *)
 
-Inductive fin0 := Return | RaiseGRPC (st : Z) (m : option (list Z)) | RaiseException | RaiseBase.
+(* the Exception subclasses request_handler has clauses for, raised by the handler ITSELF *)
+Inductive exck :=
+| XPlain                  (* RuntimeError, ... *)
+| XTimeout                (* asyncio.TimeoutError: an inner wait_for, a socket / database timeout *)
+| XStreamTerminated       (* StreamTerminatedError, e.g. out of a client call the handler made *)
+| XProtocol.              (* grpclib.exceptions.ProtocolError *)
+
+Inductive fin0 := Return | RaiseGRPC (st : Z) (m : option (list Z)) | RaiseException (k : exck) | RaiseBase.
 Inductive fin := Fin (f : fin0) | Wait.                 (* Wait: stay suspended until cancelled *)
 Inductive policy := Honour | Swallow (f : fin0).        (* what the handler does with CancelledError *)
 
@@ -357,11 +413,21 @@ Fixpoint run_ops (t : tclass) (e : env) (s : sstate) (ops : list op)
   | o :: r =>
       let continue s1 out1 r1 :=
         let '(s2, out2, rs, st) := run_ops t e s1 r in (s2, out1 ++ out2, r1 :: rs, st) in
+      let sending ph :=
+        match ph with
+        | PDone s1 out1 r1 => continue s1 out1 r1
+        | PWait =>                        (* suspended in `await write_ready.wait()` *)
+            match deliver t e s true with
+            | (s1, Some c) => (s1, [], [RCancelled], Interrupted c)
+            | (s1, None) => (s1, [], [], Stuck)
+            end
+        end in
       match o with
-      | SendInitial => let '(s1, out1, r1) := send_initial s in continue s1 out1 r1
-      | SendMessage => let '(s1, out1, r1) := send_message (e_card e) s in continue s1 out1 r1
-      | SendTrailing st m => let '(s1, out1, r1) := send_trailing (e_card e) s st m in continue s1 out1 r1
-      | Cancel => let '(s1, out1, r1) := cancel s in continue s1 out1 r1
+      | SendInitial f => sending (do_send_initial s f)
+      | SendMessage f => sending (do_send_message (e_card e) s f)
+      | SendTrailing st m f => sending (do_send_trailing (e_card e) s st m f)
+      | Cancel => sending (do_cancel s)
+      | Pause => continue (set_paused s true) [] ROk
       | Recv =>
           match recv_outcome e (recvd s) with
           | RvMsg => continue (set_recvd s (S (recvd s))) [] RMsg
@@ -381,12 +447,44 @@ Fixpoint run_ops (t : tclass) (e : env) (s : sstate) (ops : list op)
       end
   end.
 
-Definition exn_of_fin0 (f : fin0) : option exn :=
+(* what is in flight when the handler body is left *)
+Inductive inflight := INone | IGRPC (st : Z) (m : option (list Z)) | IExc (k : exck) | IBase | ICancelled.
+
+Definition inflight_of_fin0 (f : fin0) : inflight :=
   match f with
-  | Return => None
-  | RaiseGRPC st m => Some (EGRPC st m)
-  | RaiseException => Some EExc
-  | RaiseBase => Some EBase
+  | Return => INone
+  | RaiseGRPC st m => IGRPC st m
+  | RaiseException k => IExc k
+  | RaiseBase => IBase
+  end.
+
+(* Wrapper._error after wrapper.cancel(error): StreamTerminatedError for a reset (__terminated__), TimeoutError
+   for the deadline; Server.close() only cancels the task and does not touch the wrapper *)
+Definition wrapper_error (c : option cause) : option exck :=
+  match c with
+  | Some CReset => Some XStreamTerminated
+  | Some CDeadline => Some XTimeout
+  | Some CClose | None => None
+  end.
+
+(* Wrapper.__exit__: when _error is set, cancel_failed := exc_type is not CancelledError, raise _error *)
+Definition wrapper_exit (w : option exck) (i : inflight) : inflight * bool :=
+  match w with
+  | Some k => (IExc k, match i with ICancelled => false | _ => true end)
+  | None => (i, false)
+  end.
+
+(* the except clauses of request_handler; cancelled = wrapper.cancelled, cancel_failed = wrapper.cancel_failed *)
+Definition except_clauses (cancelled cancel_failed : bool) (i : inflight) : option exn :=
+  match i with
+  | INone => None
+  | IGRPC st m => Some (EGRPC st m)
+  | IExc XTimeout =>
+      if cancel_failed then Some (EGRPC deadline_status_failed None)
+      else if cancelled then Some (EGRPC deadline_status_cancelled None)
+      else Some EExc                      (* 'Timeout occurred': the handler's own timeout, re-raised *)
+  | IExc _ => Some EExc                   (* incl. StreamTerminatedError (re-raised, or the assert fails) *)
+  | IBase | ICancelled => Some EBase
   end.
 
 (* how the handler coroutine itself ended (what a log line in the handler would say) *)
@@ -402,22 +500,25 @@ Inductive endkind :=
    error when it was cancelled (StreamTerminatedError for a reset, TimeoutError for the deadline; Server.close
    does not touch the wrapper); the TimeoutError clause turns both the honoured and the failed cancellation
    into GRPCError(DEADLINE_EXCEEDED). *)
-Definition exit_exn (k : endkind) : option exn :=
+Definition leaves_with (k : endkind) : option cause * inflight :=
   match k with
-  | KNotRun | KHang => None
-  | KFin f => exn_of_fin0 f
-  | KCancelled CReset | KSwallowed CReset _ => Some EExc
-  | KCancelled CDeadline => Some (EGRPC deadline_status_cancelled None)
-  | KSwallowed CDeadline _ => Some (EGRPC deadline_status_failed None)
-  | KCancelled CClose => Some EBase
-  | KSwallowed CClose f => exn_of_fin0 f
+  | KNotRun | KHang => (None, INone)
+  | KFin f => (None, inflight_of_fin0 f)
+  | KCancelled c => (Some c, ICancelled)
+  | KSwallowed c f => (Some c, inflight_of_fin0 f)
   end.
+
+Definition exit_exn (k : endkind) : option exn :=
+  let '(c, i) := leaves_with k in
+  let w := wrapper_error c in
+  let '(i', cancel_failed) := wrapper_exit w i in
+  except_clauses (match w with Some _ => true | None => false end) cancel_failed i'.
 
 Definition after_cancel (p : policy) (c : cause) : endkind :=
   match p with Honour => KCancelled c | Swallow f => KSwallowed c f end.
 
 Definition init_state (e : env) : sstate :=
-  mkS false false false false (if e_eof e then HRemote else HOpen) 0 0 false.
+  mkS false false false false (if e_eof e then HRemote else HOpen) 0 0 false false.
 
 (* the handler coroutine: ops, then fin; a cancellation ends the ops *)
 Definition run_handler (t : tclass) (e : env) (p : prog)
